@@ -262,9 +262,37 @@ func cfg15FromCase(c *Case) c15Cfg {
 	return cfg
 }
 
+// c15Options: the method's own options (seeded random search order, current choice, draw policy) are not the omission's
+// business: the answer equals the answer to the request with the reported criteria deleted and every option kept.
+func c15Options(c *Case) []Violation {
+	out := Decide(J(c.Req), nil)
+	if !out.Accepted {
+		return []Violation{viol(c, "C15/rejected", "valid request with an omission rejected: %s", out.Err)}
+	}
+	resp, err := ParseResponse(out.Body)
+	if err != nil {
+		return []Violation{viol(c, "C15/unparsable", "%v", err)}
+	}
+	red := reducedByOmissions(asM(roundTrip(c.Req)), resp)
+	out2 := Decide(J(red), nil)
+	stat("transitions")
+	if !out2.Accepted {
+		return []Violation{viol(c, "C15/reduced-rejected", "the request with the reported criteria deleted is rejected: %s", out2.Err)}
+	}
+	r2, _ := ParseResponse(out2.Body)
+	if r2 == nil || string(J(resp.Result)) != string(J(r2.Result)) {
+		return []Violation{viol(c, "C15/reduced-request", "result after the omission differs from the result of the request with those criteria deleted (method options kept): %s vs %s", J(resp.Result), J(r2.Result))}
+	}
+	stat("traces_validated")
+	return nil
+}
+
 func c15Check(c *Case) []Violation {
 	if c.Kind == "frequency" {
 		return c15Frequency(c)
+	}
+	if c.Kind == "options" {
+		return c15Options(c)
 	}
 	cfg := cfg15FromCase(c)
 	if c.Kind == "omission-twice" {
@@ -506,6 +534,26 @@ func c15Frequency(c *Case) []Violation {
 
 func c15Run(s *Shard) {
 	cur = s
+	// method options next to an omission: five alternatives whose ranking is the (seeded) search order
+	for _, m := range []string{"aspectEliminationHeuristic", "satisfactionHeuristic", "majorityHeuristic"} {
+		seededOrderCases(s, "C15", m, func(c *Case) {
+			for _, ob := range []M{{"ratio": 0.34, "ordering": "weakest"}, {"ratio": 0.34, "ordering": "strongest"}} {
+				for _, cc := range []string{"", "d"} {
+					if cc != "" && m == "aspectEliminationHeuristic" {
+						continue
+					}
+					req := withBiases(asM(c.Req), []M{bias("criteriaOmission", ob)})
+					if cc != "" {
+						req = withMP(req, M{"currentChoice": cc})
+					}
+					oc := &Case{Prop: "C15", Kind: "options", Req: req}
+					s.Evals++
+					s.Begin(oc)
+					s.Report(c15Options(oc))
+				}
+			}
+		})
+	}
 	wsets := map[int][][]float64{2: {{1, 2}, {2, 1}, {2, 2}, {0, 1}}, 3: {{1, 2, 3}, {3, 2, 1}, {2, 2, 1}, {1, 0, 2}, {5e-7, 1e-7, 3e-7}}, 4: {{1, 2, 3, 4}, {4, 3, 2, 1}, {2, 2, 1, 3}}}
 	ratios := []float64{0.5, 0, 0.25, 0.34, 0.75, 1, 0.3333333333, 0.9999999999}
 	mins := []int{-1, 0, 1, 2}
